@@ -1,17 +1,35 @@
 """Per-property registry: source file of the check object, files whose #if arms are counted,
 tier parameters."""
 import glob, os
+import configs as C
 
 VEC = "include/avel/impl/vectors/"
 INT_VEC_FILES = [VEC + "Vec%s%s.hpp" % (w, s) for w in ("1x8", "1x16", "1x32", "1x64", "16x8", "8x16", "4x32", "2x64", "32x8", "16x16", "8x32", "4x64", "64x8", "32x16", "16x32", "8x64") for s in "ui"]
 FLT_VEC_FILES = [VEC + "Vec%s.hpp" % w for w in ("1x32f", "1x64f", "4x32f", "2x64f", "8x32f", "4x64f", "16x32f", "8x64f")]
 SCALAR_FILES = ["include/avel/impl/scalars/Scalar%s.hpp" % s for s in ("8u", "8i", "16u", "16i", "32u", "32i", "64u", "64i", "32f", "64f")]
 
+def cfgs_with_san(tier, inc):
+    import run
+    out = run.default_configs(tier)
+    out.append(C.Config([], san="asan"))
+    out.append(C.Config([], cxx="clang++", std="c++11", opt="-O1", san="ubtrap"))
+    out.append(C.Config(["POPCNT", "LZCNT", "BMI", "BMI2"], cxx="clang++", std="c++17", opt="-O1", san="ubtrap"))
+    out.append(C.Config([], cxx="g++", std="c++17", opt="-O2", san="ubtrap"))
+    return out
+
+
 PROPS = {
-    "C02": {"id": "C02", "source": "c02.cpp", "files": INT_VEC_FILES + FLT_VEC_FILES, "min_configs": {"quick": 8, "thorough": 30}},
+    "C01": {"id": "C01", "source": "c01.cpp", "files": INT_VEC_FILES, "min_configs": {"quick": 8, "thorough": 30},
+            "configs": cfgs_with_san, "ub_is_violation": True, "digest_binding": True},
+    "C02": {"id": "C02", "source": "c02.cpp", "files": INT_VEC_FILES + FLT_VEC_FILES, "min_configs": {"quick": 8, "thorough": 30}, "digest_binding": True},
 }
 
 MANIFEST_TEXT = {
+    "C01": {
+        "technique": "property-based testing: enumerated (all 8-bit pairs, lattice cross products; all 16-bit pairs in thorough) + rapidcheck operand pairs against modular-arithmetic oracle and metamorphic relations, per build configuration; UBSan trap mode turns undefined behaviour into a failing Case",
+        "level": "Generated-input search over operand pairs x 11 operator forms x every integer vector type x every configuration of the #if-arm cover (quick) / macro lattice x compilers x standards (thorough); oracle = arithmetic modulo 2^bits on wider unsigned types plus relations ((a+b)-b==a, a*b==b*a, a*2^k==a<<k, -a==0-a); lane independence by heterogeneous neighbours and one-hot lanes; 'never undefined' by clang/gcc -fsanitize=undefined in trap mode on the width-1 code; cross-configuration output digests must agree.",
+        "note": "Trusted: harness oracle (unsigned __int128 arithmetic), host CPU, compilers. Exhaustive only for 8-bit pairs (quick) and 16-bit pairs (thorough); 32/64-bit pairs are lattice cross products + random. AVEL has no scalar + - * overloads, so the 'scalar overloads agree' clause reduces to C++ unsigned arithmetic, which is the oracle.",
+    },
     "C02": {
         "technique": "property-based testing: rapidcheck-generated + enumerated operand pairs against a bit-level comparison oracle, per build configuration",
         "level": "Generated-input search: all 8-bit pairs and the full boundary-lattice cross product (32/64-bit, floats incl. NaN/inf/zero/subnormal) in every lane position, plus rapidcheck random/derived pairs, for all six operators on every vector type of every configuration in the #if-arm cover (quick) or the full macro lattice x compilers x standards (thorough). Oracle decides truth from bit patterns without FP instructions; mask read through primitive, extract<I>, count/any/all/none and Vector(mask).",
